@@ -6,19 +6,20 @@ W=/tmp/confirm_wt
 export CARGO_NET_OFFLINE=true
 if [ ! -d $W ]; then git -C /repo worktree add -q --detach $W HEAD; fi
 git -C $W reset -q --hard; git -C $W checkout -q --detach $(git -C /repo rev-parse HEAD)
-for M in /tmp/mut2/R*/mutants/m*; do
+BASE=${1:-/tmp/mut2}; TAG=${2:-x}
+for M in $BASE/*/mutants/m*; do
     [ -f $M/patch.diff ] || continue
-    K=$(echo $M | sed 's|.*/R\([0-9]*\)/mutants/m\([0-9]*\)|\1\2|')
+    K=$(echo $M | sed "s|.*/[A-Z]\([0-9]*\)/mutants/m\([0-9]*\)|\1\2|")
     P=$(python3 -c "
 import json,re
 m=json.load(open('$M/meta.json')); p=str(m.get('property',''))
 r=re.findall(r'C\d\d',p); print(r[0] if r else 'C00')")
-    OUT=/verif/seeded/$P-x$K
+    OUT=/verif/seeded/$P-$TAG$K
     [ -f $OUT/confirmed.json ] && continue
     cd $W && git reset -q --hard && git clean -fdq -e target
     mkdir -p tests
-    LOG=/tmp/confirm_$P-x$K.log; : > $LOG
-    if ! git apply $M/patch.diff 2>>$LOG; then echo "$P-x$K: PATCH DOES NOT APPLY"; continue; fi
+    LOG=/tmp/confirm_$P-$TAG$K.log; : > $LOG
+    if ! git apply $M/patch.diff 2>>$LOG; then echo "$P-$TAG$K: PATCH DOES NOT APPLY"; continue; fi
     FEAT=""
     cargo test --offline --no-fail-fast >>$LOG 2>&1; T1=$?
     cargo test --offline --no-fail-fast --features serde-json >>$LOG 2>&1; T2=$?
@@ -36,10 +37,10 @@ except Exception: print('')
     rm -f tests/demo.rs
     if [ $T1 -eq 0 ] && [ $T2 -eq 0 ] && [ $D1 -ne 0 ] && [ $D0 -eq 0 ]; then
       mkdir -p $OUT && cp $M/patch.diff $M/demo.rs $M/meta.json $OUT/
-      echo "{\"suite_default\": \"pass\", \"suite_serde_json\": \"pass\", \"demo_with_patch\": \"fail\", \"demo_without_patch\": \"pass\", \"base_commit\": \"$(git -C /repo rev-parse --short HEAD)\", \"round\": 2}" > $OUT/confirmed.json
-      echo "$P-x$K: confirmed"
+      echo "{\"suite_default\": \"pass\", \"suite_serde_json\": \"pass\", \"demo_with_patch\": \"fail\", \"demo_without_patch\": \"pass\", \"base_commit\": \"$(git -C /repo rev-parse --short HEAD)\", \"round\": \"$TAG\"}" > $OUT/confirmed.json
+      echo "$P-$TAG$K: confirmed"
     else
-      echo "$P-x$K: NOT confirmed (suite=$T1/$T2 demo_with=$D1 demo_without=$D0) see $LOG"
+      echo "$P-$TAG$K: NOT confirmed (suite=$T1/$T2 demo_with=$D1 demo_without=$D0) see $LOG"
     fi
 done
 cd $W && git reset -q --hard && git clean -fdq -e target
